@@ -254,24 +254,27 @@ func main() {
 	basedir := r.Scratch()
 	total := r.RunSharded(vr.Workers(), func(sh vr.ShardInfo, p *vr.Partial) {
 		dir := fmt.Sprintf("%s/w%d", basedir, sh.Index)
-		for si, sc := range scs {
-			sub := vr.NewPartial()
-			schedmc.Explore(setupFor(sc, dir, nil), opts(sc.name), sh, sub, r.Share(si, len(scs)))
-			for k := range sub.Violations {
-				v := &sub.Violations[k]
-				v.Sig = v.Sig[strings.Index(v.Sig, ": ")+2:]
-				if i := strings.Index(v.Sig, "history is"); i > 0 {
-					v.Sig = v.Sig[:i]
+		var items []schedmc.Item
+		for _, sc := range scs {
+			items = append(items, schedmc.Item{Name: sc.name, Run: func(expired func() bool, sub *vr.Partial) {
+				schedmc.Explore(setupFor(sc, dir, nil), opts(sc.name), sh, sub, expired)
+				for k := range sub.Violations {
+					v := &sub.Violations[k]
+					v.Sig = v.Sig[strings.Index(v.Sig, ": ")+2:]
+					if i := strings.Index(v.Sig, "history is"); i > 0 {
+						v.Sig = v.Sig[:i]
+					}
 				}
-			}
-			p.Merge(sub)
+			}})
 		}
+		schedmc.ExploreAll(r, p, items)
 	})
 	r.RequireOutcomes(total.Card("outcomes"), 4)
 	var names []string
 	for _, sc := range scs {
 		names = append(names, sc.name)
 	}
+	completed := schedmc.Completed(total, names)
 	r.Finish(vr.Coverage{
 		Level:       "model_checking",
 		Evaluations: total.Counters["executions"],
@@ -281,9 +284,9 @@ func main() {
 		States:      total.Counters["steps"],
 		Transitions: total.Counters["steps"],
 		Validated:   total.Counters["executions"],
-		Exhaustive:  !total.TimedOut,
+		Exhaustive:  len(completed) == len(names),
 		Outcomes:    total.Card("outcomes"),
-		Bounds:      map[string]any{"preemption_bound": bound, "scenarios": names},
+		Bounds:      map[string]any{"preemption_bound": bound, "scenarios": names, "scenarios_enumerated_completely": completed},
 		Extra:       map[string]any{"schedules": total.Counters["executions"], "max_decisions_per_schedule": total.Counters["max_decisions"]},
 		Assumptions: []string{"LSM / WAL / value-log calls made by the commit worker are atomic steps (their internal locks are not scheduling points)", "DB open and close run with exploration switched off; flush worker gated, compaction and stats paused", "sequentially consistent atomics"},
 	})
